@@ -28,11 +28,14 @@ from vlib import cz, cbool
 AREA = "LP"
 MODULES = ["Arc.LP.Props"]
 THEOREMS = [("Arc.LP.Props", t) for t in (
-    "C01_roundtrip_fixed", "C01_roundtrip_guarded", "C01_roundtrip_refuted", "C01_ts_conv",
-    "C01_columnar", "C01_fix_conservative")]
+    "C01_roundtrip_fixed",            # PRIMARY: the parser in /repo (split at the first unescaped '='), all well-formed batches
+    "C01_ts_conv", "C01_columnar", "C01_store_exact", "C01_store_unsigned_overflow_refused",
+    # statements about the split /repo had before 51370f6 (kept: they pin the fixed finding and the conservativity of the fix)
+    "C01_roundtrip_guarded", "C01_roundtrip_refuted", "C01_fix_conservative")]
 TIE_NAME = "C01 correspondence (ingest.ParseBatchWithPrecision + BatchToColumnar vs Arc.LP.Model.parse_batch / batch_to_columnar)"
 HARNESS = {"internal/ingest/zz_lp_verif_test.go": "harness/lp/lp_verif_test.go"}
 SIG = "key-contains-escaped-equals"
+SIG_US = "underscore-prefixed-key-not-stored"
 
 MAX_I64, MIN_I64, MAX_U64 = 2 ** 63 - 1, -2 ** 63, 2 ** 64 - 1
 
@@ -314,11 +317,81 @@ def malformed_cases(rng, n, seeds):
     return out
 
 
+U_EDGES = [2 ** 63 - 1, 2 ** 63, 2 ** 63 + 1, MAX_U64, MAX_U64 - 1, 2 ** 63 - 2, 0, 1, 42, 2 ** 62, 2 ** 64 - 2 ** 32]
+
+
+def storage_cases(rng, n):
+    """Bodies for the second observable (WriteColumnarRecord -> FlushAll -> Parquet read-back):
+    measurement names the HTTP handler accepts, 2-5 points per measurement sharing field keys,
+    homogeneous unsigned columns with values around 2^63 and 2^64-1, nil cells (absent keys),
+    all five types, a few underscore-prefixed keys and a few type-mixed columns."""
+    out = []
+    for i in range(n):
+        nm = rng.choice([1, 1, 1, 2])
+        meas = []
+        while len(meas) < nm:
+            m = (rng.choice(b"abcdXYZ") .to_bytes(1, "big") + bytes(rng.choice(b"abcxyz019_-") for _ in range(rng.randint(0, 5))))
+            if m not in meas:
+                meas.append(m)
+        ps = []
+        for m in meas:
+            npts = rng.randint(1, 5)
+            nkeys = rng.randint(1, 4)
+            keys, kinds = [], []
+            while len(keys) < nkeys:
+                k = rname(rng, 1, 4, heavy=(i % 4 == 0))
+                if i % 9 == 0 and rng.random() < 0.4:
+                    k = b"_" + k
+                try:
+                    k.decode("utf-8")
+                except UnicodeDecodeError:
+                    continue
+                if k in keys or k == b"time":
+                    continue
+                keys.append(k)
+                kinds.append(rng.choice(["uint", "uint", "uint", "int", "float", "str", "bool"]))
+            tagk = [k for k in (rname(rng, 1, 3) for _ in range(rng.choice([0, 1, 2]))) if k not in keys and k != b"time" and _is_utf8(k)]
+            tagk = list(dict.fromkeys(tagk))
+            mode = i % 6         # 0,1: every point has every key (homogeneous columns)  2,3: keys may be absent  4: one mixed column  5: small values only
+            t0 = rng.choice([1700000000000000, 0, -3600000000, 1700000000000000 + 3600000000 * rng.randint(0, 3), rng.randrange(-10 ** 15, 10 ** 16)])
+            for j in range(npts):
+                fields = []
+                for k, kind in zip(keys, kinds):
+                    if mode in (2, 3) and rng.random() < 0.3 and len(fields) + (len(keys) - keys.index(k) - 1) >= 1:
+                        continue
+                    if kind == "uint":
+                        v = ("uint", rng.choice(U_EDGES) if mode != 5 else rng.randrange(0, 1000))
+                        if rng.random() < 0.35:
+                            v = ("uint", rng.randrange(0, 2 ** 63))
+                    elif kind == "int":
+                        v = ("int", rng.choice([0, -1, MAX_I64, MIN_I64, rng.randrange(MIN_I64, MAX_I64)]))
+                    elif kind == "float":
+                        v = ("float", rng.choice(FLOATS[:12]))
+                    elif kind == "str":
+                        v = rvalue(rng, 3)
+                        v = v if v[0] == "str" else ("str", b"s p,=\"")
+                    else:
+                        v = ("bool", rng.random() < 0.5, rng.randrange(5))
+                    if mode == 4 and k == keys[0] and j == npts - 1 and npts > 1:
+                        v = rng.choice([("int", 7), ("float", b"2.5"), ("str", b"x"), ("bool", True, 0), ("uint", MAX_U64)])
+                    fields.append((k, v))
+                if not fields:
+                    fields.append((keys[0], ("uint", rng.choice(U_EDGES))))
+                tags = [(k, rname(rng, 0, 3)) for k in tagk if rng.random() < 0.8]
+                ts = t0 + rng.choice([0, 1, 2, 3600000000, 7200000001, j]) if rng.random() < 0.9 else None
+                ps.append({"m": m, "tags": tags, "fields": fields, "ts": ts})
+        rng.shuffle(ps)
+        tnl = rng.random() < 0.5
+        out.append({"stream": "storage", "points": ps, "em": False, "tnl": tnl, "prec": "us" if rng.random() < 0.8 else rng.choice(["ns", "ms", "s"]),
+                    "data": encode_batch(ps, False, tnl), "store": True, "cols": True})
+    return out
+
+
 def mark_columnar(cases):
     """BatchToColumnar is compared on every near-grammar case (name collisions) and on every
     third other case; the parser is compared on all of them."""
     for i, c in enumerate(cases):
-        c["cols"] = c["stream"] in ("near", "witness", "edge") or i % 3 == 0
+        c["cols"] = c.get("store", False) or c["stream"] in ("near", "witness", "edge") or i % 3 == 0
 
 
 def witness_cases():
@@ -394,14 +467,41 @@ def c_columnar(c):
         cb(bytes.fromhex(c["m"])), cols, ";".join(cb(bytes.fromhex(t)) for t in c["tagcols"]))
 
 
+def c_scell(t, payload):
+    if t == "null":
+        return "SNull"
+    if t == "now":
+        return "STimeNow"
+    if t == "t":
+        return "(STime %s)" % cz(int(payload))
+    if t == "i":
+        return "(SInt %s)" % cz(int(payload))
+    if t == "f":
+        return "(SFloat %s)" % cz(int(payload))
+    if t == "s":
+        return "(SStr %s)" % cb(bytes.fromhex(payload))
+    return "(SBool %s)" % cbool(payload == "t")
+
+
+def c_store(o):
+    if o.get("stored") is None:
+        return "None"
+    return "(Some [%s])" % ";".join(
+        "{| so_meas := %s; so_accepted := %s; so_rows := [%s] |}" % (
+            cb(bytes.fromhex(m["m"])), cbool(m["accepted"]),
+            ";".join("[%s]" % ";".join("(%s,%s)" % (cb(bytes.fromhex(c[0])), c_scell(c[1], c[2])) for c in row) for row in m["rows"]))
+        for m in o["stored"])
+
+
 def c_case(c):
     o = c["obs"]
     pts = "None" if c["points"] is None else "(Some [%s])" % ";".join(c_point(p) for p in c["points"])
-    return ("{| k_em := %s; k_tnl := %s; k_points := %s; k_prec := %s; k_data := %s; k_floats := [%s]; k_obs := [%s]; k_cols := %s |}" % (
+    return ("{| k_em := %s; k_tnl := %s; k_points := %s; k_prec := %s; k_data := %s; k_floats := [%s]; k_obs := [%s]; k_cols := %s; k_store := %s |}" % (
         cbool(c["em"]), cbool(c["tnl"]), pts, cb(c["prec"].encode()), cb(c["data"]),
         ";".join("(%s,%s)" % (cb(bytes.fromhex(k)), cz(int(v))) for k, v in o["floats"]),
         ";".join(c_record(r) for r in o["records"]),
-        "(Some [%s])" % ";".join(c_columnar(x) for x in o["columnar"]) if c.get("cols", True) else "None"))
+        "(Some [%s])" % ";".join(c_columnar(x) for x in o["columnar"]) if c.get("cols", True) else "None",
+        c_store(o)))
 
 
 HEADER = ("From Coq Require Import List ZArith NArith Bool Uint63.\nFrom Arc Require Import LP.Model LP.Pack.\nImport ListNotations.\n"
@@ -414,7 +514,7 @@ PREDS = {"agree_old": "case_agrees false", "agree_new": "case_agrees true", "enc
 # ------------------------------------------------------------------------------------------
 
 def run_impl(cases, tag):
-    inp = [{"id": i, "data": c["data"].hex(), "prec": c["prec"]} for i, c in enumerate(cases)]
+    inp = [{"id": i, "data": c["data"].hex(), "prec": c["prec"], "store": bool(c.get("store"))} for i, c in enumerate(cases)]
     out = vlib.run_go_harness("C01", "./internal/ingest/", "^TestVerifLP$", HARNESS, inp, tag=tag)
     if len(out) != len(cases):
         raise vlib.TieBroken("C01 harness returned %d results for %d cases" % (len(out), len(cases)))
@@ -426,6 +526,8 @@ def run_impl(cases, tag):
             raise vlib.TieBroken("C01 harness: two parses of the same body differ (input %s)" % c["data"].hex())
         if any(not x.get("columnar_flag") for x in o["columnar"]):
             raise vlib.TieBroken("C01 harness: ColumnarRecord.Columnar/Measurement not set as modelled (input %s)" % c["data"].hex())
+        if str(o.get("store_skip", "")).startswith(("flush-error", "readback-error", "no-buffer")):
+            raise vlib.TieBroken("C01 harness: storage stage failed (%s) on input %s" % (o["store_skip"], c["data"].hex()))
         res.append(dict(c, obs=o))
     return res
 
@@ -442,8 +544,12 @@ def printable(c):
                         "fields": [[k.hex()] + [x.hex() if isinstance(x, bytes) else x for x in v] for k, v in p["fields"]], "ts": p["ts"]}
                        for p in c["points"]]
         d["em"], d["tnl"] = c["em"], c["tnl"]
+    if c.get("store"):
+        d["store"] = True
     if "obs" in c:
         d["observed"] = {"records": c["obs"]["records"], "columnar": c["obs"]["columnar"]}
+        if c["obs"].get("stored") is not None:
+            d["observed"]["stored"] = c["obs"]["stored"]
     return d
 
 
@@ -455,18 +561,25 @@ def escapes_and_types(c):
     return has_esc and len(types) >= 2
 
 
-def shrink_bytes(case, akey, rounds=10):
-    """Greedy: all single-chunk deletions evaluated in one harness + one Coq run per round."""
+def shrink_bytes(case, akey, rounds=6, budget_s=75):
+    """Greedy: whole-line and chunk deletions, all candidates of a round evaluated in one
+    harness + one Coq run; stops when nothing smaller still disagrees or the budget is spent."""
     cur = case["data"]
+    t0 = time.time()
     for _ in range(rounds):
+        if time.time() - t0 > budget_s:
+            break
         cands, seen = [], set()
-        step = max(1, len(cur) // 16)
-        for w in sorted({step, 1}, reverse=True):
+        lines = cur.split(b"\n")
+        if len(lines) > 1:
+            for i in range(len(lines)):
+                seen.add(b"\n".join(lines[:i] + lines[i + 1:]))
+        step = max(1, len(cur) // 12)
+        for w in sorted({step, max(1, step // 3), 1}, reverse=True):
             for i in range(0, len(cur), w):
-                d = cur[:i] + cur[i + w:]
-                if d not in seen and d != cur:
-                    seen.add(d)
-                    cands.append(raw_case("shrunk", d, case["prec"]))
+                seen.add(cur[:i] + cur[i + w:])
+        seen.discard(cur)
+        cands = [raw_case("shrunk", d, case["prec"], bool(case.get("store"))) for d in sorted(seen, key=len)[:400]]
         if not cands:
             break
         try:
@@ -481,8 +594,8 @@ def shrink_bytes(case, akey, rounds=10):
     return cur
 
 
-def raw_case(stream, data, prec):
-    return {"stream": stream, "points": None, "em": False, "tnl": False, "prec": prec, "data": data, "cols": True}
+def raw_case(stream, data, prec, store=False):
+    return {"stream": stream, "points": None, "em": False, "tnl": False, "prec": prec, "data": data, "cols": True, "store": store}
 
 
 def setup():
@@ -509,16 +622,21 @@ def variant_of(r, nwit):
 def run(res, tier, seed):
     rng = random.Random(seed * 7919 + 1)
     failed = vlib.std_proof_stage(res, "C01", AREA, MODULES, THEOREMS, extra_targets=["theories/LP/Pack.vo"])
+    if tier == "thorough" and hasattr(vlib, "coqchk_stage"):
+        ok, _ = vlib.coqchk_stage(res, MODULES)
+        if not ok:
+            failed.append(("coqchk", "coqchk rejected the compiled development or reported inadmissible axioms"))
     res.cov["trusted_base"] += [
         "strconv.ParseFloat is an oracle (parameter pf of the model); a float value is compared by the IEEE bits ParseFloat returns for the same raw bytes; the oracle table is computed by the harness on every substring of a line that can reach ParseFloat",
         "time.Now() is abstracted to 'server time' (None); the harness recognises it by parsing each body at two different instants",
         "Go maps are association lists compared as finite maps; when two fields of one record write the same column (field k with tag k, and a field k_value) Go's map order decides and the columnar comparison is skipped for that case",
         "bytes.TrimSpace/unicode.IsSpace, utf8.Valid and the U+FFFD replacement of SanitizeUTF8 are transcribed byte-wise from the Go standard library and exercised by the malformed stream",
         "case files write byte strings as packed primitive-integer literals (Arc.LP.Pack.hx, used by no theorem)",
-        "not covered: the HTTP handler (measurement-name regexp, decompression, RBAC) and the Arrow/Parquet encoding after BatchToColumnar",
+        "second observable: the harness pushes BatchToColumnar's output through a real ArrowBuffer on a temporary LocalBackend (WriteColumnarRecord, FlushAll) and reads every Parquet file back with the Arrow reader; the Arrow/Parquet writer and reader are library code observed through their decoded cells; only bodies whose measurement names pass the handler's regexp are stored (handleWrite buffers nothing otherwise); float<->integer coercion of type-mixed columns is not modelled (skipped, detected inside Coq)",
+        "not covered: the HTTP handler itself (decompression, RBAC, status codes); WAL; buffer age/size triggered flushes (property C03)",
     ]
 
-    n_valid, n_near, n_mut = (480, 110, 320) if tier == "quick" else (12000, 2500, 8000)
+    n_valid, n_near, n_mut, n_store = (440, 100, 290, 170) if tier == "quick" else (12000, 2500, 8000, 4000)
     t1 = time.time()
     wit = witness_cases()
     corpus = []
@@ -529,7 +647,10 @@ def run(res, tier, seed):
                 o = json.load(open(os.path.join(cdir, fn)))
                 corpus.append(raw_case("corpus:" + fn, bytes.fromhex(o["data_hex"]), o.get("prec", "ns")))
     valid = valid_cases(rng, n_valid)
-    cases = wit + corpus + valid + near_cases(rng, n_near) + malformed_cases(rng, n_mut, valid)
+    cases = wit + corpus + valid + storage_cases(rng, n_store) + near_cases(rng, n_near) + malformed_cases(rng, n_mut, valid)
+    for c in cases:
+        if c["stream"].startswith("corpus") or c["stream"] == "edge":
+            c["store"] = True         # stored too when the handler would accept the measurement names
     mark_columnar(cases)
     out = run_impl(cases, tier)
     res.stage("impl_harness", t1)
@@ -574,6 +695,12 @@ def run(res, tier, seed):
         "bodies_with_dropped_lines": sum(1 for c in out if len(c["obs"]["records"]) < len([l for l in c["data"].split(b"\n") if l.strip()])),
         "bodies_invalid_utf8": sum(1 for c in out if not _is_utf8(c["data"])),
         "bodies_with_columnar_compared": sum(1 for c in out if c.get("cols", True)),
+        "bodies_stored_and_read_back": sum(1 for c in out if c["obs"].get("stored") is not None),
+        "measurements_written": sum(len(c["obs"].get("stored") or []) for c in out),
+        "measurements_refused_by_buffer": sum(1 for c in out for m in (c["obs"].get("stored") or []) if not m["accepted"]),
+        "rows_read_back": sum(len(m["rows"]) for c in out for m in (c["obs"].get("stored") or [])),
+        "unsigned_cells_at_or_above_2^63_written": sum(1 for c in out if c["obs"].get("stored") is not None for r in c["obs"]["records"]
+                                                      for f in r["fields"] if f[1] == "u" and int(f[2]) >= 2 ** 63),
         "grammar_cases_in_domain": len(grammar) - len(outside),
         "grammar_cases_with_equals_in_a_key": len([i for i in grammar if i in noguard]),
         "precisions": {p or "(empty)": sum(1 for c in out if c["prec"] == p) for p in sorted(set(PRECS))},
@@ -581,14 +708,23 @@ def run(res, tier, seed):
     res.cov["model_vs_impl_disagreements"] = len(dis)
     res.cov["oracle_failures"] = len(orf)
     base = len(wit) + len(corpus)
-    res.cov["samples"] = [printable(out[base]), printable(out[base + n_valid + 5]), printable(out[-1])]
+    res.cov["samples"] = [printable(out[base]), printable(out[base + n_valid + 1]), printable(out[base + n_valid + n_store + 5]), printable(out[-1])]
 
     # ---- verdicts -------------------------------------------------------------------------
     known = [e for e in vlib.known_for("C01") if e.get("signature") == SIG]
+    known_us = [e for e in vlib.known_for("C01") if e.get("signature") == SIG_US]
     disset = set(dis)
     predicted = [i for i in orf if i in noguard and i not in disset] if variant == "defect" else []
-    unexpected = [i for i in orf if i not in set(predicted) and i not in disset]
-    res.cov["oracle_failures_predicted_by_model_in_known_class"] = len(predicted)
+    # class 2: a key starting with '_' in a body that went through the buffer
+    us_class = {i for i, c in enumerate(out) if c["points"] is not None and c["obs"].get("stored") is not None
+                and any(k.startswith(b"_") for p_ in c["points"] for k, _ in p_["tags"] + p_["fields"])}
+    predicted_us = [i for i in orf if i in us_class and i not in disset and i not in set(predicted)] if known_us else []
+    unexpected = [i for i in orf if i not in set(predicted) and i not in set(predicted_us) and i not in disset]
+    res.cov["oracle_failures_predicted_by_model_in_known_class"] = len(predicted) + len(predicted_us)
+    if predicted_us:
+        res.known_finding("%s: %s [%d generated bodies: the request is accepted and the underscore-prefixed column is absent from the Parquet "
+                          "file, exactly as the model predicts; e.g. %s]" % (SIG_US, known_us[0]["what"], len(predicted_us),
+                                                                           out[predicted_us[0]]["data"].decode("utf-8", "backslashreplace")[:120].replace("\n", "\\n")))
     reported = False
     if variant == "defect":
         if known:
@@ -610,11 +746,12 @@ def run(res, tier, seed):
         reported = True
     if dis:
         # well-formed points (outside the known class) that the implementation stores wrongly
-        in_domain = [j for j in dis if j in set(orf) and j >= len(wit) and not (variant == "defect" and j in noguard)]
-        i = in_domain[0] if in_domain else dis[0]
+        in_domain = [j for j in dis if j in set(orf) and j >= len(wit) and not (variant == "defect" and j in noguard)
+                     and not (known_us and j in us_class)]
+        i = min(in_domain or dis, key=lambda j: len(out[j]["data"]))
         c = out[i]
         small = shrink_bytes(c, akey)
-        sc = run_impl([raw_case("shrunk", small, c["prec"])], "shrunk")[0]
+        sc = run_impl([raw_case("shrunk", small, c["prec"], bool(c.get("store")))], "shrunk")[0]
         res.violation("model and implementation disagree on a request body",
                       {"kind": "correspondence", "correspondence": TIE_NAME, "case": printable(sc), "original_case": printable(c),
                        "disagreeing_cases": len(dis), "well_formed_points_stored_wrongly": len(in_domain),
@@ -657,7 +794,7 @@ def replay(res, path):
     if not c or "data_hex" not in c:
         print("replay file names no concrete case:", obj.get("summary"))
         return 1
-    case = raw_case("replay", bytes.fromhex(c["data_hex"]), c.get("prec", "ns"))
+    case = raw_case("replay", bytes.fromhex(c["data_hex"]), c.get("prec", "ns"), bool(c.get("store")))
     if c.get("points") is not None:
         case.update(points=points_from_printable(c), em=c.get("em", False), tnl=c.get("tnl", False))
     wit = witness_cases()
@@ -667,5 +804,7 @@ def replay(res, path):
     n = len(wit)
     print("body:", case["data"].decode("utf-8", "backslashreplace"))
     print("observed records:", json.dumps(out[n]["obs"]["records"]))
+    if out[n]["obs"].get("stored") is not None:
+        print("read back from Parquet:", json.dumps(out[n]["obs"]["stored"]))
     print("tree variant:", variant, "| model disagrees:", n in r[akey], "| stored differently from the points:", n in r["oracle"])
     return 1 if (n in r[akey] or n in r["oracle"]) else 0
